@@ -27,6 +27,9 @@ def sig_of(case, what):
 
 
 def harness_problem(o):
+    sk = [k for k in o if re.fullmatch(r'S\d+', k)]
+    if sk:
+        return 'SPEC: the evaluator model differs from the specification (Spec.v) on this input: %s=%s' % (sk[0], o[sk[0]][:200])
     if o.get('WF') == '0':
         return 'WF=0 (the parser model built a tree outside the well-formedness the theorems assume)'
     for k in ('ORACLE_MISS', 'DRIVER_ERROR', 'RUNNER_ERROR'):
